@@ -322,8 +322,12 @@ func engineBody(c ecfg) func() {
 				w.finish(r)
 			}),
 		}
-		if c.mode == ekit.ET {
+		switch c.mode {
+		case ekit.ET:
 			conf.EpollMod = nbio.EPOLLET
+		case ekit.ONESHOT:
+			conf.EpollMod = nbio.EPOLLET
+			conf.EPOLLONESHOT = nbio.EPOLLONESHOT
 		}
 		if c.exec == "go" {
 			conf.ServerExecutor = func(f func()) { vsched.GoNamed("exec", f) }
@@ -726,10 +730,15 @@ func engineScenarios(tier string) []*vkit.Scenario {
 		{true, 1, "close", "handler-waits"}: true, {true, 1, "close", "none"}: true, {true, 2, "rst", "after-start"}: true,
 		{true, 1, "uclose", "after-start"}: true, {true, 2, "hclose", "none"}: true,
 	}
-	modes := []ekit.Mode{ekit.LT, ekit.ET}
-	if thorough {
-		modes = ekit.Modes // one-shot mode rides along in the thorough tier
+	// one-shot mode: in the quick tier the WebSocket close shapes (Close from the callback itself,
+	// from another thread, peer close while OnMessage is between start and end), so that every
+	// epoll mode is in quick for them (added after the seeded change C05-m7 was missed: a
+	// one-shot-only shortcut that takes the WebSocket callbacks out of the job queue); in the
+	// thorough tier the whole quick selection
+	quickOneshot := map[shape]bool{
+		{true, 1, "close", "handler-waits"}: true, {true, 1, "uclose", "after-start"}: true, {true, 2, "hclose", "none"}: true,
 	}
+	modes := ekit.Modes
 	for _, m := range modes {
 		for _, e := range []string{"go", "pool"} {
 			for _, ws := range []bool{false, true} {
@@ -748,6 +757,9 @@ func engineScenarios(tier string) []*vkit.Scenario {
 							sh := shape{ws, n, end, sync}
 							if !quick[sh] && (!thorough || m == ekit.ONESHOT) {
 								continue // one-shot mode: the quick selection only
+							}
+							if m == ekit.ONESHOT && !thorough && !quickOneshot[sh] {
+								continue
 							}
 							// executions with the default task pool are 4-5 times slower (it allocates a
 							// 64 Ki-entry channel per engine) and have two more threads: one bound lower
@@ -786,7 +798,7 @@ func engineScenarios(tier string) []*vkit.Scenario {
 						if e == "pool" && (script == "tq" || script == "pt") {
 							inQuick = false // the default pool's executions are 4-5 times slower
 						}
-						if !inQuick && (!thorough || m == ekit.ONESHOT) {
+						if (!inQuick && (!thorough || m == ekit.ONESHOT)) || (m == ekit.ONESHOT && !thorough) {
 							continue
 						}
 						// one preemption of the client separates the reads and lands the control frame
